@@ -13,7 +13,7 @@ CXX_TARGETS = ["hgv_engine", "hgv_map"]
 USES_EXTRACT = True
 RULE = ("generated programs with a capturing node (exception_time_series) or a try_except-wrapped chain sub-graph whose "
         "thrower fails on a random set of its evaluations (first, consecutive, later), failing node at child index 0 and > 0, "
-        "plus an independent branch; non-trivial = at least one captured failure and a later cycle; distinct by program text")
+        "plus an independent branch; wrapped two-branch sub-graphs whose result does not depend on the thrower, read by an outside sampler woken by an unrelated input; non-trivial = at least one captured failure and a later cycle; distinct by program text")
 TRUSTED = ["harness vocabulary nodes (TS[int]) stand for arbitrary nodes; map_ keyed error capture is exercised by the C10 check"]
 ASSUMPTIONS = ["inside a try_except-wrapped sub-graph, nodes ranked after the failing node are part of the failing unit for that cycle"]
 TECHNIQUE = ("Lean 4 proof about the graph scan's cursor/resume rule (a failed evaluation restarts from node 0; counter-lemma for "
@@ -27,7 +27,8 @@ LEVEL_TEXT = ("Kernel-checked: after a failed (captured) evaluation the next eva
               "part in is invisible to it (cycle_noninterference, idle_cycle_keeps). The executable "
               "engine model (same Sched.cycle definition) is compared trace-for-trace with the real runtime on generated "
               "programs, and every implementation trace is checked against a dataflow reading that demands one error tick in "
-              "the failing cycle, undisturbed independent streams and normal later cycles.")
+              "the failing cycle, undisturbed independent streams and normal later cycles."
+              ' Wrapped sub-graphs whose result does not depend on the thrower, read by an outside sampler woken by an unrelated input, are part of the generated programs (the independent result of the failing cycle must arrive and stay readable).')
 LEVEL_NOTE = ("Trusted: Lean kernel + standard axioms; hand-written engine model (tied by correspondence); the Python "
               "reference monitor. map_ per-key capture is not part of this check's generator.")
 
@@ -37,6 +38,7 @@ def streams(rng, tier, seed):
     progs = [ec.gen_try(rng, "try" if i % 3 else "errts") for i in range(n)]
     progs += [ec.gen_sched_capture(rng) for _ in range(n // 2)]     # capturing nodes that own a scheduler
     progs += [ec.gen_try_sched(rng) for _ in range(n // 2)]         # wake-ups pending beside a failing node in a wrapped sub-graph
+    progs += [ec.gen_try_indep(rng) for _ in range(n // 2)]         # an independent result branch beside the thrower + an outside sampler of `out`
     # "in a keyed map an error in one key's child is reported under that key only": the map_ harness of C10 with
     # children that throw (several keys failing in one cycle, failures next to removals, recovery)
     nm = 80 if tier == "quick" else 2000
